@@ -13,6 +13,7 @@ func init() {
 		Assumptions: []string{
 			"virtual time: the claim is about the library's arithmetic and sleeping discipline, not the kernel's timers; built with go1.26.8 instead of go1.23.5 (same source, different compiler)",
 			"t for a line is max(issue time, completion of the previous write), exact in the bubble",
+			"'per character' is read as per byte of the line (what Hybrid and the quantifier's 'line lengths 0..510' mean); a third of the lines consist of 2-, 3- or 4-byte characters",
 			"a hung bubble would be inconclusive, never a violation",
 		},
 		Plan: func(tier string, seed int64) []Batch {
